@@ -28,7 +28,7 @@ def field_view(text):
 def count_bounds(c, verdict):
     if c["kind"] == 12: return (0, 3)
     if verdict.startswith("frame:"): return (1, 1)
-    if verdict == "raise": return (0, 0)
+    if verdict == "raise": return (0, 1)      # that nothing is sent for a rejected argument is C02's claim, not this property's
     return (0, 1)
 
 
